@@ -16,7 +16,11 @@ LEVEL_TEXT = ('Unbounded Lean theorems: (a) ALL SIZES of the hand-modelled class
               'L>=1 (qubit lists derived from the stabilizers; periodic identification proved canonical) -- all with the full '
               'valid_code incl. rank; HollowPlanar3DCode L>=1 (wf, commutation, pairing, operator-level rank family of n-1 '
               'independent generators), RotatedToric3DCode Lx,Ly>=2 not both odd (wf + commutation + pairing incl. defect '
-              'lines; rank by instances), more as they are merged): the assembled matrices '
+              'lines; rank by instances), Color3DCode all L_i even >= 2 (wf of the derived qubit list, commutation, the 9x9 pairing table of '
+              'strings and membranes; periodic wrap removed through centred differences, overlaps as kernel-evaluated finite functions; '
+              'rank by instances), HollowRhombicCode Lx,Ly>=2, Lz>=3 (wf, commutation incl. the key-count selection rule of the '
+              'triangle loop, pairing; rank by instances, with a kernel-checked NEGATIVE instance (3,6,6): undeclared second logical '
+              'pair, rank <= n-2 - known finding), more as they are merged): the assembled matrices '
               'exist and satisfy ValidCodeL n k (commutation, logical commutation, pairing table, GF(2) rank n-k) for every '
               'lattice size, with closed forms for n, k, stabilizers and get_deformation; (b) the executable validity checker '
               'is sound for every code; commutation+pairing force rank <= n-k for every code; every per-qubit permutation of '
